@@ -479,6 +479,12 @@ def write_replay(prop, payload):
 
 
 def write_evidence(chk, tier, seed, coverage, wall, violations, assumptions):
+    if os.path.realpath(REPO) != "/repo":
+        # a development run against a scratch copy (VERIF_REPO): the committed evidence describes /repo only
+        os.makedirs(os.path.join(WORK, chk.prop), exist_ok=True)
+        with open(os.path.join(WORK, chk.prop, "evidence-scratch.json"), "w") as f:
+            json.dump(dict(property_id=chk.prop, tier=tier, seed=seed, coverage=coverage, wall_s=wall, violations=violations), f, indent=1)
+        return
     os.makedirs(os.path.join(ROOT, "evidence"), exist_ok=True)
     ev = dict(property_id=chk.prop, tier=tier, seed=seed, level=chk.level, coverage=coverage,
               assumptions=assumptions, wall_s=round(wall, 1), violations=violations)
